@@ -49,4 +49,173 @@ def relaxCounts {K : Type} [LT K] [DecidableLT K] (tol : K) (relaxsteps climbste
     (dsRelax dsClimb : List K) : Nat × Nat :=
   (phaseSteps tol relaxsteps dsRelax, phaseSteps tol climbsteps dsClimb)
 
+
+/-! ### the path object (`BasePath` / `ISMPath`): observable state and its reads
+
+The object holds exactly five things: the coordinate array (rows = images), the energy function, the
+gradient function, the keyword settings handed to the gradient function and the integrator.  Every
+read (`energy`, `grad_energy`, `force`, `arccoord`, `unittangent`, `step`) is a function of the
+*current* values of these fields: there is no other state.  Arrays of points are lists of rows; the
+energy/gradient/integrator functions of `atomman.mep` act row by row (last axis = coordinates).
+`dot` is the Euclidean contraction and `sqrt` the square root (external: a parameter). -/
+
+section PathModel
+variable {V K : Type}
+
+structure Path (V K : Type) where
+  coord : List V
+  energyfxn : V → K
+  /-- `gradientfxn(energyfxn, coord, **gradientkwargs)` for one row; the keyword settings are
+      modelled as one optional number (`shift` of `central_difference`, or the setting of a callable). -/
+  gradientfxn : (V → K) → V → Option K → V
+  gradientkwargs : Option K
+  /-- `integratorfxn(ratefxn, coord, timestep)` for one row. -/
+  integratorfxn : (V → V) → V → K → V
+
+/-- what can be done to a path object between reads (`energyfxn` and `gradientkwargs` have no
+    setter; the settings dictionary is changed in place). -/
+inductive Op (V K : Type) where
+  | setCoord (c : List V)
+  | setRow (i : Nat) (v : V)
+  | setGradientfxn (g : (V → K) → V → Option K → V)
+  | setKwargs (k : Option K)
+  | setIntegratorfxn (f : (V → V) → V → K → V)
+
+namespace Path
+
+def apply (p : Path V K) : Op V K → Path V K
+  | .setCoord c => { p with coord := c }
+  | .setRow i v => { p with coord := p.coord.set i v }
+  | .setGradientfxn g => { p with gradientfxn := g }
+  | .setKwargs k => { p with gradientkwargs := k }
+  | .setIntegratorfxn f => { p with integratorfxn := f }
+
+def run (p : Path V K) (ops : List (Op V K)) : Path V K := ops.foldl apply p
+
+/-- `energy(coord)`; `energy()` is `energyAt p p.coord`. -/
+def energyAt (p : Path V K) (c : List V) : List K := c.map p.energyfxn
+def energy (p : Path V K) : List K := p.energyAt p.coord
+
+/-- the gradient of the energy at one point with the object's current settings. -/
+def gradPoint (p : Path V K) (x : V) : V := p.gradientfxn p.energyfxn x p.gradientkwargs
+def gradAt (p : Path V K) (c : List V) : List V := c.map p.gradPoint
+def gradEnergy (p : Path V K) : List V := p.gradAt p.coord
+
+section geometry
+variable [Add V] [Sub V] [SMul K V] [Add K] [Div K] [NatCast K]
+variable (dot : V → V → K) (sqrt : K → K)
+
+/-- `v / |v|`. -/
+def unitOf (v : V) : V := (((1 : Nat) : K) / sqrt (dot v v)) • v
+
+/-- `coord[1:] - coord[:-1]`. -/
+def diffs : List V → List V
+  | a :: b :: t => (b - a) :: diffs (b :: t)
+  | _ => []
+
+def tangentGo (prev : V) : List V → List V
+  | [] => [prev]
+  | u :: t => (prev + u) :: tangentGo u t
+
+/-- `τ[0] = u[0]`, `τ[-1] = u[-1]`, `τ[i] = u[i-1] + u[i]` from the unit differences `u`. -/
+def rawTangent : List V → List V
+  | [] => []
+  | u0 :: us => u0 :: tangentGo u0 us
+
+/-- `ISMPath.unittangent` (defined for at least two images). -/
+def unitTangentOf (c : List V) : List V :=
+  (rawTangent ((diffs c).map (unitOf dot sqrt))).map (unitOf dot sqrt)
+
+def cumsum (acc : K) : List K → List K
+  | [] => [acc]
+  | x :: t => acc :: cumsum (acc + x) t
+
+/-- `BasePath.arccoord` (at least one image). -/
+def arccoordOf (c : List V) : List K :=
+  cumsum (((0 : Nat) : K)) ((diffs c).map (fun v => sqrt (dot v v)))
+
+def unitTangent (p : Path V K) : List V := unitTangentOf dot sqrt p.coord
+def arccoord (p : Path V K) : List K := arccoordOf dot sqrt p.coord
+/-- `einsum('ij,ij->i', grad_energy(), unittangent)`. -/
+def force (p : Path V K) : List K := List.zipWith dot p.gradEnergy (p.unitTangent dot sqrt)
+
+end geometry
+
+section stepping
+variable [Add V] [Sub V] [Neg V] [SMul K V] [Add K] [Sub K] [Mul K] [Div K] [Neg K] [NatCast K]
+
+/-- one ordinary image moved by `integratorfxn(rate, ·, timestep)`. -/
+def stepRow (p : Path V K) (h : K) (x : V) : V :=
+  p.integratorfxn (Gen.rate p.gradPoint) x h
+
+/-- one climbing image moved by `integratorfxn(climbrate, ·, timestep, τ=τ)`. -/
+def climbRow (p : Path V K) (dot : V → V → K) (h : K) (x τ : V) : V :=
+  p.integratorfxn (fun y => Gen.climbrate p.gradPoint dot y τ) x h
+
+/-- the integrated coordinates `icoord` of `ISMPath.step` (before re-spacing): every row by the
+    rate, the climbing rows by the climbing rate with the tangent of the *initial* path. -/
+def icoord (p : Path V K) (dot : V → V → K) (sqrt : K → K) (h : K) (climb : List Nat) : List V :=
+  let τ := p.unitTangent dot sqrt
+  (List.zip (List.range p.coord.length) (List.zip p.coord τ)).map
+    (fun (i, x, t) => if climb.contains i then p.climbRow dot h x t else p.stepRow h x)
+
+/-- ordinary step of all rows (no climbing: the tangents are not needed). -/
+def icoordPlain (p : Path V K) (h : K) : List V := p.coord.map (p.stepRow h)
+
+/-- the path returned by `step` carries the same functions and settings. The re-spacing along the
+    cubic spline leaves the first, the last and the climbing rows where the integrator put them
+    (they are knots whose arc coordinate is kept); for a two-image path that is the whole path. -/
+def withCoord (p : Path V K) (c : List V) : Path V K := { p with coord := c }
+
+/-- `n` ordinary steps of a two-image path / of the end images of any path. -/
+def iterateRows (p : Path V K) (h : K) : Nat → List V → List V
+  | 0, c => c
+  | n + 1, c => iterateRows p h n (c.map (p.stepRow h))
+
+end stepping
+
+/-- `default_timestep = 0.05 * min(0.2, 1/N)`, `default_tolerance = max(N^-4, 1e-10)`. -/
+def defaultTimestep [Mul K] [Div K] [NatCast K] [LT K] [DecidableLT K] (n : Nat) : K :=
+  let a : K := ((1 : Nat) : K) / ((5 : Nat) : K)
+  let b : K := ((1 : Nat) : K) / ((n : Nat) : K)
+  (((1 : Nat) : K) / ((20 : Nat) : K)) * (if b < a then b else a)
+
+def defaultTolerance [Mul K] [Div K] [NatCast K] [LT K] [DecidableLT K] (n : Nat) : K :=
+  let a : K := ((1 : Nat) : K) / (((n * n * n * n : Nat) : K))
+  let b : K := ((1 : Nat) : K) / ((10000000000 : Nat) : K)
+  if a < b then b else a
+
+end Path
+end PathModel
+
+/-! ### `central_difference` on arrays of points of any leading shape
+
+A coordinate array of shape `(…, d)` is the list of its points in row-major order together with the
+leading shape; the gradient array has the same shape and its point `k` is the gradient at point `k`:
+component `i` is `Gen.cdComponent` with `δ = shift·eᵢ`. -/
+
+def cdPoint {V K : Type} [Add V] [Sub V] [Neg V] [SMul K V] [Add K] [Sub K] [Mul K] [Div K] [Neg K] [NatCast K]
+    (mk : List K → V) (delta : Nat → K → V) (dim : Nat) (fxn : V → K) (x : V) (s : K) : V :=
+  mk ((List.range dim).map (fun i => Gen.cdComponent fxn x (delta i s) s))
+
+def cdArray {V K : Type} [Add V] [Sub V] [Neg V] [SMul K V] [Add K] [Sub K] [Mul K] [Div K] [Neg K] [NatCast K]
+    (mk : List K → V) (delta : Nat → K → V) (dim : Nat) (fxn : V → K) (pts : List V) (s : K) : List V :=
+  pts.map (fun x => cdPoint mk delta dim fxn x s)
+
+/-! ### executable instance over `Rat` (driver) -/
+
+/-- square root of a non-negative rational to a relative accuracy of `2^-64` (driver only). -/
+def ratSqrt (x : Rat) : Rat :=
+  if x ≤ 0 then 0 else
+  mkRat (Nat.sqrt (x.num.toNat * x.den * 2 ^ 128)) (x.den * 2 ^ 64)
+
+/-- analytic gradient of `testFxn`. -/
+def testGrad (a b c : List Rat) (m : Rat) (v : Vec) : Vec :=
+  let n := v.d.length
+  let x0 := v.d.headD 0
+  let xl := v.d.getLastD 0
+  ⟨(List.zip (List.range n) (List.zip (List.zip a (List.zip b c)) v.d)).map
+    (fun (i, abc, x) => abc.1 + 2 * abc.2.1 * x + 3 * abc.2.2 * x * x
+      + (if i = 0 then m * xl else 0) + (if i + 1 = n then m * x0 else 0))⟩
+
 end Atomman.C20
